@@ -18,6 +18,7 @@ static uint64_t g_run_index = 0;
 static bool g_inproc = false;
 static int g_any_every = -1;  // mates list: every n-th placement without mate in one (-1 = tier default, 0 = none)
 static int g_m1_every = 1;   // mates list: take every n-th mate-in-one placement (1 = all)
+static bool g_castle_mates = false;  // mates list: only placements where a castling move delivers mate
 
 static bool mine()
 {
@@ -639,6 +640,21 @@ static void list_mates(const std::string& sigspec)
         if (lm.empty()) return true;
         bool m1 = false;
         ref::Pos t;
+        if (g_castle_mates)
+        {
+            // castling-mate family: keep only placements where castling mates; count those where it is the only mate
+            bool cm = false, other_mate = false;
+            for (auto& m : lm)
+            {
+                ref::make(p, m, t);
+                if (!ref::is_mate(t)) continue;
+                if (m.flags & (ref::F_CASTLE_K | ref::F_CASTLE_Q)) cm = true;
+                else other_mate = true;
+            }
+            if (!cm) return true;
+            R.count("mate_in_one_by_castling_positions");
+            if (!other_mate) R.count("mate_in_one_only_by_castling_positions");
+        }
         for (auto& m : lm)
         {
             ref::make(p, m, t);
@@ -1152,6 +1168,7 @@ int main(int argc, char** argv)
         else if (a == "--replay") replay = argv[++i];
         else if (a == "--inproc") g_inproc = true;
         else if (a == "--m1every") g_m1_every = atoi(argv[++i]);
+        else if (a == "--castlemates") g_castle_mates = true;
         else if (a == "--anyevery") g_any_every = atoi(argv[++i]);
         else if (a == "--seeds")
         {
